@@ -317,10 +317,12 @@ def _build():
             eom_ops={"add_eom_pulse": 8, "delay": 2.5, "modify": 2.5, "disable": 2.5, "phase_shift": 0.7, "align": 0.7},
             w_fault=0.3,
             fault_kinds={"bad": 2, "restart": 2, "cache": 0.5},
+            fork_faults=True,
+            bad_filter=("fork", "eom", "mode", "dur", "seqdur", "var"),
             w_observer=0.2,
             measure_p=0.03,
         ),
-        lambda: [c15.C15(), c09.Relabel(c07.C07(), "C15/drift-", only=("C07/pulse-phase", "C07/reference"))],
+        lambda: [c15.C15(), c09.Relabel(c07.C07(), "C15/drift-", only=("C07/pulse-phase", "C07/reference")), c09.Relabel(c09.C09(), "C15/refused-", only=("C09/refused-call-changed",))],
         nontrivial_fn=c15.nontrivial,
         world_kw={"bw_bias": 1.0},
         assumptions=["Pulse.fall_time of the real code is a trusted input (both bandwidth readings accepted for 'ramped down')", "the emulator clause (drift-corrected populations) is decided by the EMU-SIM scenario part of this check"],
